@@ -244,6 +244,9 @@ def run(ctx, failed=()):
         ctx.distinct.add("codecs20:" + key)
     ctx.coverage["traces_validated_against_impl"] += stats["jobs"]
     paths = _report(ctx, found, diffs, True)
+    # `_extracted` theorems that stopped and whose codec now has a concrete failing input: later stages need not report them again
+    hit = {("g72x" if j["key"] in BITS else j["key"].rstrip("0123456789")) for (j, impl, model, k, lines) in found if impl is not None and k is not None}
+    ctx.lean_failures_with_input = [f for f in failed if "_extracted" in f and any(("." + c + "_") in f for c in hit)]
     ev = dict(stats)
     ev["differences"] = len(found)
     ev["table_entries_differing"] = len(diffs)
